@@ -463,7 +463,7 @@ class ListMatcher(Matcher):
     def copy(self):
         return self.__class__(self._ids, self._weights, self._values,
                               self._format, self._scorer, self._i,
-                              self._all_weights)
+                              self._all_weights, self._term, self._terminfo)
 
     def replace(self, minquality=0):
         if not self.is_active():
